@@ -15,6 +15,21 @@ pub static TRYWITH_OWN_IN_DROP_OK: AtomicUsize = AtomicUsize::new(0);
 pub static TRYWITH_OWN_IN_DROP_ERR: AtomicUsize = AtomicUsize::new(0);
 pub static TRYWITH_OTHER_IN_DROP: AtomicUsize = AtomicUsize::new(0);
 pub static SLOW_DROP: std::sync::atomic::AtomicBool = std::sync::atomic::AtomicBool::new(false);
+pub static LATE: AtomicUsize = AtomicUsize::new(0);
+pub static TL2_INIT: AtomicUsize = AtomicUsize::new(0);
+pub static TL2_DROP: AtomicUsize = AtomicUsize::new(0);
+pub struct TlLate;
+impl TlLate {
+    fn new() -> TlLate {
+        TL2_INIT.fetch_add(1, SeqCst);
+        TlLate
+    }
+}
+impl Drop for TlLate {
+    fn drop(&mut self) {
+        TL2_DROP.fetch_add(1, SeqCst);
+    }
+}
 
 pub struct TlVal {
     k: usize,
@@ -32,6 +47,16 @@ impl Drop for TlVal {
             loom::thread::yield_now();
         }
         TL_DROP[self.k].fetch_add(1, SeqCst);
+        if self.k == 0 {
+            let late = LATE.load(SeqCst);
+            if late & 1 != 0 && LZ_INIT_ORDER.lock().unwrap().contains(&0) {
+                let v: &LzVal = &*LZ0;
+                v.cell.with(|p| unsafe { std::ptr::read_volatile(p) });
+            }
+            if late & 2 != 0 {
+                TL2.with(|_| ());
+            }
+        }
         // the key under destruction must report AccessError, never panic and never hand out the value
         let own = if self.k == 0 { TL0.try_with(|_| ()) } else { TL1.try_with(|_| ()) };
         if own.is_ok() {
@@ -70,6 +95,7 @@ impl Drop for LzVal {
 loom::thread_local! {
     static TL0: TlVal = TlVal::new(0);
     static TL1: TlVal = TlVal::new(1);
+    static TL2: TlLate = TlLate::new();
 }
 pub static LZ2_LIVE: AtomicUsize = AtomicUsize::new(0);
 pub static LZ2_INIT: AtomicUsize = AtomicUsize::new(0);
@@ -147,10 +173,15 @@ pub struct StProg {
     /// of a thread's closure and the end of its destructors
     #[serde(default)]
     pub slow_drop: bool,
+    /// what the destructor of thread-local 0 does besides counting: bit 0 - it reads lazy static 0 if this iteration has
+    /// initialised it (a destructor that uses a global); bit 1 - it is the first user of a third thread-local, which
+    /// must then be destroyed at thread exit as well
+    #[serde(default)]
+    pub late: u8,
 }
 impl StProg {
     pub fn s(&self) -> String {
-        format!("{}{}{}", if self.join_first { "[join first] " } else { "" }, if self.slow_drop { "[destructors yield] " } else { "" }, self.threads.iter().map(|t| t.iter().map(|o| format!("{:?}", o)).collect::<Vec<_>>().join("; ")).collect::<Vec<_>>().join("  ||  "))
+        format!("{}{}{}", if self.join_first { "[join first] " } else { "" }, if self.slow_drop { "[destructors yield] " } else { "" }.to_string() + match self.late { 0 => "", 1 => "[TL0's destructor reads LZ0] ", 2 => "[TL0's destructor initialises TL2] ", _ => "[TL0's destructor reads LZ0 and initialises TL2] " }, self.threads.iter().map(|t| t.iter().map(|o| format!("{:?}", o)).collect::<Vec<_>>().join("; ")).collect::<Vec<_>>().join("  ||  "))
     }
 }
 
@@ -249,6 +280,11 @@ pub fn run_loom(p: &StProg, iter_cap: usize) -> SRes {
             if e.len() > 20 {
                 return;
             }
+            // a thread-local that is first used by another one's destructor is destroyed at thread exit too
+            let (i2n, d2n) = (TL2_INIT.swap(0, SeqCst), TL2_DROP.swap(0, SeqCst));
+            if i2n != d2n {
+                e.push(format!("iteration {}: the thread-local first used inside another one's destructor was initialised {} times but destroyed {} times by the end of the iteration", it, i2n, d2n));
+            }
             // what an iteration leaves behind is a function of that iteration alone: its lazy statics are dropped in the
             // order in which IT initialised them, whatever earlier iterations did
             let io = std::mem::take(&mut *LZ_INIT_ORDER.lock().unwrap());
@@ -283,6 +319,9 @@ pub fn run_loom(p: &StProg, iter_cap: usize) -> SRes {
     }
     let (e2, i2, ev2) = (errs.clone(), iters.clone(), events.clone());
     SLOW_DROP.store(p.slow_drop, SeqCst);
+    LATE.store(p.late as usize, SeqCst);
+    TL2_INIT.store(0, SeqCst);
+    TL2_DROP.store(0, SeqCst);
     LZ2_INIT.store(0, SeqCst);
     LZ3_INIT.store(0, SeqCst);
     LZ_INIT_ORDER.lock().unwrap().clear();
@@ -343,6 +382,7 @@ pub fn run_loom(p: &StProg, iter_cap: usize) -> SRes {
     }));
     loom::verif::set_iteration_hook(None);
     SLOW_DROP.store(false, SeqCst);
+    LATE.store(0, SeqCst);
     let panic = res.err().map(panic_msg);
     let mut errors = errs.lock().unwrap().clone();
     if TRYWITH_OWN_IN_DROP_OK.load(SeqCst) != own_ok0 {
@@ -371,35 +411,41 @@ fn core() -> &'static Vec<StProg> {
         // two lazy statics whose first users race (the atomics make both orders explorable): the initialisation order -
         // and with it the drop order - differs from iteration to iteration
         for join_first in [false, true] {
-            v.push(StProg { threads: vec![vec![StOp::AStore, StOp::Lz(0)], vec![StOp::ALoad, StOp::Lz(1)]], join_first, slow_drop: false });
-            v.push(StProg { threads: vec![vec![StOp::ALoad, StOp::Lz(0), StOp::Lz(1)], vec![StOp::AStore, StOp::Lz(1), StOp::Lz(0)]], join_first, slow_drop: false });
-            v.push(StProg { threads: vec![vec![StOp::ALoad], vec![StOp::AStore, StOp::Lz(0)], vec![StOp::ALoad, StOp::Lz(1)]], join_first, slow_drop: false });
-            v.push(StProg { threads: vec![vec![StOp::AStore, StOp::Lz(1), StOp::Tl(0)], vec![StOp::ALoad, StOp::Lz(0)], vec![StOp::ALoad, StOp::Lz(1)]], join_first, slow_drop: false });
+            v.push(StProg { threads: vec![vec![StOp::AStore, StOp::Lz(0)], vec![StOp::ALoad, StOp::Lz(1)]], join_first, slow_drop: false, late: 0 });
+            v.push(StProg { threads: vec![vec![StOp::ALoad, StOp::Lz(0), StOp::Lz(1)], vec![StOp::AStore, StOp::Lz(1), StOp::Lz(0)]], join_first, slow_drop: false, late: 0 });
+            v.push(StProg { threads: vec![vec![StOp::ALoad], vec![StOp::AStore, StOp::Lz(0)], vec![StOp::ALoad, StOp::Lz(1)]], join_first, slow_drop: false, late: 0 });
+            v.push(StProg { threads: vec![vec![StOp::AStore, StOp::Lz(1), StOp::Tl(0)], vec![StOp::ALoad, StOp::Lz(0)], vec![StOp::ALoad, StOp::Lz(1)]], join_first, slow_drop: false, late: 0 });
         }
         for a in &lists {
             for b in &lists {
                 if !b.is_empty() {
-                    v.push(StProg { threads: vec![a.clone(), b.clone()], join_first: false, slow_drop: false });
+                    v.push(StProg { threads: vec![a.clone(), b.clone()], join_first: false, slow_drop: false, late: 0 });
                 }
             }
         }
         // single-threaded and 4-thread shapes
         for a in &lists {
-            v.push(StProg { threads: vec![a.clone()], join_first: false, slow_drop: false });
+            v.push(StProg { threads: vec![a.clone()], join_first: false, slow_drop: false, late: 0 });
         }
-        v.push(StProg { threads: vec![vec![StOp::Lz(0)], vec![StOp::Lz(0)], vec![StOp::Lz(0)], vec![StOp::Lz(0)]], join_first: false, slow_drop: false });
-        v.push(StProg { threads: vec![vec![StOp::LzSlow], vec![StOp::LzSlow], vec![StOp::LzSlow]], join_first: false, slow_drop: false });
-        v.push(StProg { threads: vec![vec![StOp::LzSlow, StOp::LzSlow], vec![StOp::LzSlow], vec![StOp::ALoad, StOp::LzSlow]], join_first: false, slow_drop: false });
-        v.push(StProg { threads: vec![vec![StOp::Tl(0)], vec![StOp::Tl(0)], vec![StOp::Tl(0)], vec![StOp::Tl(0)]], join_first: true, slow_drop: false });
+        v.push(StProg { threads: vec![vec![StOp::Lz(0)], vec![StOp::Lz(0)], vec![StOp::Lz(0)], vec![StOp::Lz(0)]], join_first: false, slow_drop: false, late: 0 });
+        v.push(StProg { threads: vec![vec![StOp::LzSlow], vec![StOp::LzSlow], vec![StOp::LzSlow]], join_first: false, slow_drop: false, late: 0 });
+        v.push(StProg { threads: vec![vec![StOp::LzSlow, StOp::LzSlow], vec![StOp::LzSlow], vec![StOp::ALoad, StOp::LzSlow]], join_first: false, slow_drop: false, late: 0 });
+        v.push(StProg { threads: vec![vec![StOp::Tl(0)], vec![StOp::Tl(0)], vec![StOp::Tl(0)], vec![StOp::Tl(0)]], join_first: true, slow_drop: false, late: 0 });
+        // destructors that use a global lazy static / are the first user of another thread-local, in main and in a child
+        for late in [1u8, 2, 3] {
+            v.push(StProg { threads: vec![vec![StOp::Lz(0), StOp::Tl(0)]], join_first: false, slow_drop: false, late });
+            v.push(StProg { threads: vec![vec![StOp::Lz(0)], vec![StOp::Tl(0)]], join_first: false, slow_drop: false, late });
+            v.push(StProg { threads: vec![vec![StOp::Tl(0)], vec![StOp::Lz(0), StOp::Tl(0), StOp::Tl(1)]], join_first: true, slow_drop: false, late });
+        }
         // racing first accesses to the lazy static whose initialiser has a scheduling point that is not a yield
-        v.push(StProg { threads: vec![vec![StOp::LzRmw], vec![StOp::AStore, StOp::LzRmw]], join_first: false, slow_drop: false });
-        v.push(StProg { threads: vec![vec![StOp::ALoad, StOp::LzRmw], vec![StOp::LzRmw], vec![StOp::AStore, StOp::LzRmw]], join_first: false, slow_drop: false });
-        v.push(StProg { threads: vec![vec![StOp::ALoad, StOp::LzRmw], vec![StOp::AStore, StOp::LzRmw, StOp::LzRmw]], join_first: false, slow_drop: false });
+        v.push(StProg { threads: vec![vec![StOp::LzRmw], vec![StOp::AStore, StOp::LzRmw]], join_first: false, slow_drop: false, late: 0 });
+        v.push(StProg { threads: vec![vec![StOp::ALoad, StOp::LzRmw], vec![StOp::LzRmw], vec![StOp::AStore, StOp::LzRmw]], join_first: false, slow_drop: false, late: 0 });
+        v.push(StProg { threads: vec![vec![StOp::ALoad, StOp::LzRmw], vec![StOp::AStore, StOp::LzRmw, StOp::LzRmw]], join_first: false, slow_drop: false, late: 0 });
         // destructors with a scheduling point: the joiner must still find them done
         for join_first in [false, true] {
-            v.push(StProg { threads: vec![vec![], vec![StOp::Tl(0)]], join_first, slow_drop: true });
-            v.push(StProg { threads: vec![vec![StOp::ALoad], vec![StOp::Tl(0), StOp::Tl(1)]], join_first, slow_drop: true });
-            v.push(StProg { threads: vec![vec![StOp::Tl(0)], vec![StOp::TlNested], vec![StOp::Tl(1), StOp::AStore]], join_first, slow_drop: true });
+            v.push(StProg { threads: vec![vec![], vec![StOp::Tl(0)]], join_first, slow_drop: true, late: 0 });
+            v.push(StProg { threads: vec![vec![StOp::ALoad], vec![StOp::Tl(0), StOp::Tl(1)]], join_first, slow_drop: true, late: 0 });
+            v.push(StProg { threads: vec![vec![StOp::Tl(0)], vec![StOp::TlNested], vec![StOp::Tl(1), StOp::AStore]], join_first, slow_drop: true, late: 0 });
         }
         v
     })
@@ -419,7 +465,7 @@ pub fn prog_at(_tier: u8, seed: u64, idx: usize) -> StProg {
     let al = alphabet();
     let k = if t >= 3 { 2 } else { 3 };
     let threads = (0..t).map(|_| (0..1 + rng.below(k)).map(|_| *rng.pick(&al)).collect()).collect();
-    StProg { threads, join_first: rng.chance(1, 4), slow_drop: rng.chance(1, 4) }
+    StProg { threads, join_first: rng.chance(1, 4), slow_drop: rng.chance(1, 4), late: if rng.chance(1, 5) { 1 + rng.below(3) as u8 } else { 0 } }
 }
 
 pub fn judge(p: &StProg, rec: &mut Rec, tier: u8) {
